@@ -13,7 +13,8 @@ P["C01"] = dict(
     claimed=True,
     technique="static analysis: exact rational series-reversion identities over the HIR constant tables; MIR "
               "dataflow rules on the registered fwd/inv pairs and the direction dispatch",
-    decides=[
+    decides=["R-INV-DECLARED: `<operator> inv` reaches handle_op_inversion for every invertible built-in",
+             
         "T-SERIES: for every PolynomialCoefficients table, inv is the exact series reversion of fwd to n^6 (both orders)",
         "R-DISPATCH: Op::apply maps (inverted, direction) to the fwd/inv slot by the documented truth table; "
         "handle_inversion toggles iff requested and invertible, else Err",
@@ -82,7 +83,8 @@ P["C06"] = dict(
 P["C11"] = dict(
     claimed=True,
     technique="static analysis: exact checks of the unit and adaptor tables from HIR constants",
-    decides=["R-DEDUP-SORTED: adapt / axisswap / unitconvert de-duplicate no vector (Vec::dedup*) without a dominating sort of the same vector (duplicate-axis detection sees non-adjacent duplicates)",
+    decides=["R-GUARD-MATCH-AGREE: adapt's designator guard accepts exactly the characters the designator match has arms for, and tests the value that is matched",
+             "R-DEDUP-SORTED: adapt / axisswap / unitconvert de-duplicate no vector (Vec::dedup*) without a dominating sort of the same vector (duplicate-axis detection sees non-adjacent duplicates)",
              "T-UNITS: unit names unique over linear++angular (first-hit lookup), multiplier = own factor string = "
              "published factor", "T-ADAPTORS: the 8 documented adaptor macros, registered by both contexts",
              "R-GATHER-SCATTER: adapt and axisswap forward gather out[k]=in[perm[k]]*m[k]; the inverse is the scatter "
@@ -101,7 +103,9 @@ P["C02"] = dict(
     claimed=True,
     technique="static analysis: MIR value-graph dataflow over every per-tuple loop (loop-carried state, memo idiom, "
               "count additivity)",
-    decides=[
+    decides=["R-ADAPTER-FIXED: no &mut method of the (T, f64) / (T, f64, f64) adapters assigns to the adapter's fixed height / epoch",
+             "R-LOOP-CARRIED (memo soundness): a value cached between tuples under a key is computed from the tuple through that key alone",
+             
         "R-LOOP-CARRIED: in every per-tuple loop of every function reachable from a registered InnerOp, the values "
         "written for tuple i and all branch conditions depend only on loop invariants and tuple i (or satisfy the "
         "memo idiom key!=memo; memo:=key; initial NaN)",
@@ -145,7 +149,8 @@ P["C07"] = dict(
 P["C08"] = dict(
     claimed=True,
     technique="static analysis: per-iteration typestate (written x counted) on the grid operators' loops",
-    decides=["R-COUNT-OR-NAN on gridshift/deformation/deflection: a point that gets no grid value is overwritten "
+    decides=["R-GRIDS-INDEX-GUARD: the first grid of the list is consulted only when the list is non-empty",
+             "R-COUNT-OR-NAN on gridshift/deformation/deflection: a point that gets no grid value is overwritten "
              "with NaN and not counted; every other path writes and counts",
              "R-TWO-PASS: all three grid searches (grids_at, deformation fwd/inv) try margin 0 then 0.5 in the outer "
              "loop and the grids in list order in the inner loop; the first hit ends the search",
@@ -170,7 +175,8 @@ P["C10"] = dict(
     claimed=True,
     technique="static analysis: set-of-states typestate dataflow per loop iteration (written none/value/NaN x "
               "counted 0/1/2+), and element-wise value-graph comparison of written tuples with the tuple read",
-    decides=["R-COUNT-OR-NAN: on every path through one iteration of every per-tuple loop the tuple is (written or "
+    decides=["R-STOMP-ALL: a whole-set failure leaves no finite element behind",
+             "R-COUNT-OR-NAN: on every path through one iteration of every per-tuple loop the tuple is (written or "
              "passed) and counted once, or overwritten with NaN and not counted",
              "R-EARLY-RETURN: every 'parameter missing => return 0' exit of an InnerOp is dead (key guaranteed)",
              "R-SIBLING-GUARD: a domain limit guarded forward and inverse is tested on |x| in both or in neither",
@@ -194,7 +200,8 @@ P["C04"] = dict(
     claimed=True,
     technique="static analysis: call-graph cycle analysis with explicit fn-pointer edges, dominance of the depth "
               "guard, provenance of re-entering calls, ranking functions for every loop of the resolution code",
-    decides=["R-REC-GUARD: every call cycle of the instantiation code passes through Op::op; nesting_too_deep() "
+    decides=["R-CHASE-VISITED: chase's search predicate questions the whole growing collection of followed entries",
+             "R-REC-GUARD: every call cycle of the instantiation code passes through Op::op; nesting_too_deep() "
              "dominates every re-entering call; re-entering callers pass RawParameters::next(..) frames; next() "
              "increases the level by >= 1 on every path; the limit is a constant => nesting depth is bounded for "
              "every resource graph, cycles of any length included",
@@ -218,7 +225,11 @@ P["C09"] = dict(
     claimed=True,
     technique="static analysis: key-availability dataflow between constructors and parameter-table readers, "
               "validation-before-unwrap, ranking functions for all loops, recursion guard, ellipsoid table grammar",
-    decides=["R-INSERT-BOUND: in the tokenizer / PROJ translator every Vec::insert / Vec::remove at a constant position is backed by a lower bound on the length of that vector (its history, or a dominating non-emptiness test of the same value), or the position is clamped",
+    decides=["R-UNSIGNED-SUB: no constant is subtracted from a natural-number parameter without a dominating test that the parameter is at least that large",
+             "R-INDEX-VALIDATION (roll/unroll): a negative n below -m cannot reach stack_roll (m + n would wrap to a huge number of rotations)",
+             "R-GRIDS-INDEX-GUARD: grids[k] in an operator function is read behind a non-emptiness test of that grid list",
+             "R-GUARD-MATCH-AGREE: adapt's designator guard and designator match agree on the value tested and on the alphabet (the `cannot happen` arm yielding axis 0 is unreachable)",
+             "R-INSERT-BOUND: in the tokenizer / PROJ translator every Vec::insert / Vec::remove at a constant position is backed by a lower bound on the length of that vector (its history, or a dominating non-emptiness test of the same value), or the position is clamped",
              "R-REMOVE-PAIR: tidy_proj removes the a= and rf= elements in an order decided by comparing the two saved "
              "indices (an unordered pair of Vec::remove calls panics when rf is written before a trailing a)",
              "R-KEY-AVAIL: every panicking keyed read of the parameter tables (unwrap of an accessor, map[key], "
@@ -242,7 +253,10 @@ P["C09"] = dict(
 P["C12"] = dict(
     claimed=True,
     technique="static analysis: key-availability and dispatch-exhaustiveness between stack::new and stack_fwd/stack_inv",
-    decides=["R-KEY-AVAIL on the stack sub-commands: each arm reads the series its own sub-command stored",
+    decides=["R-FLIP-SEQUENTIAL: each exchange of a flip reads the working tuple as the earlier exchanges left it",
+             "R-STOMP-ALL: CoordinateSet::stomp overwrites whole tuples (set_coord with Coor4D::nan() for every index)",
+             "R-INDEX-VALIDATION (roll/unroll): stack::new bounds |n| by m (a comparison with abs) and tests m and n for integrality",
+             "R-KEY-AVAIL on the stack sub-commands: each arm reads the series its own sub-command stored",
              "R-DISPATCH-EXHAUSTIVE: every action literal stored by stack::new has an arm in stack_fwd and stack_inv",
              "R-STACK-DUAL: each arm of stack_fwd/stack_inv runs the documented primitive on its own series with the "
              "documented argument transform (id / reverse / (m, m-n))",
@@ -267,7 +281,9 @@ P["C15"] = dict(
     technique="static analysis: interprocedural affine bounds analysis of every read of the NTv2 byte buffer against "
               "dominating length comparisons; zero-divisor guards; constructor-established invariants needed by the "
               "query code; classification of every unwrap in grid::*; ranking functions; NTv2 record offsets vs the format",
-    decides=["R-BOUNDED-READ: every read of the NTv2 buffer (slice ranges, indexed bytes) reachable from "
+    decides=["R-ROWCOUNT-AGREE: all row / column counts of the plain-grid code round with the same constant (reader and BaseGrid::plain agree on the size of the grid)",
+             "R-COMMENT-FIRST: the Gravsoft reader cuts a line at its first `#`",
+             "R-BOUNDED-READ: every read of the NTv2 buffer (slice ranges, indexed bytes) reachable from "
              "Ntv2Grid::new is dominated by a comparison with the buffer length that implies it is in bounds",
              "R-DIV-GUARD: every integer division/remainder in grid::* has a constant non-zero divisor or a dominating "
              "zero test", "R-GRID-INVARIANT: BaseGrid constructors establish rows >= 2 and cols >= 2 (needed by the "
@@ -290,7 +306,8 @@ P["C03"] = dict(
     claimed=True,
     technique="static analysis: shape, typestate and provenance rules on the two pipeline interpreter functions found "
               "through the operator registry; boolean abstract interpretation of the direction dispatch",
-    decides=["R-PIPE-ORDER: pipeline_fwd iterates op.steps in order, pipeline_inv in reverse, over all steps (no early "
+    decides=["R-INV-DECLARED: every built-in constructor that registers an inverse declares the flag `inv` in its gamut (three reviewed exceptions: push, pop, stack)",
+             "R-PIPE-ORDER: pipeline_fwd iterates op.steps in order, pipeline_inv in reverse, over all steps (no early "
              "exit), dispatching each non-skipped step exactly once",
              "R-PIPE-DUAL: skip flags / Direction constants / legacy push-pop-stack arms are exchanged between the "
              "two directions as documented", "R-PIPE-MIN: the reported count is min over executed steps, len() if none",
@@ -315,7 +332,9 @@ P["C13"] = dict(
     claimed=True,
     technique="static analysis: abstract interpretation of the value graph in a unit domain (deg/rad) and an additive "
               "polarity domain for the false origin; affine extraction of the UTM constants; sign-slice of aspect selection",
-    decides=["R-UNIT-TYPESTATE: in the ten plane projections every degree-valued parameter (lat_*, lon_*, latc, lonc, "
+    decides=["R-SIGN-CARRIER: the sign of a sexagesimal lon_0 / lat_0 / lat_ts is taken from the sign bit and the hemisphere letter on every returned value",
+             "R-UNSIGNED-SUB: utm's zone arithmetic cannot underflow for zones 1..60",
+             "R-UNIT-TYPESTATE: in the ten plane projections every degree-valued parameter (lat_*, lon_*, latc, lonc, "
              "alpha, gamma_c, lat_ts) is converted to radians exactly once before it meets arithmetic with coordinates, "
              "trigonometric or ellipsoid functions; parameters the constructor re-stores in radians are not converted again",
              "R-FALSE-ORIGIN: forward, x_0/y_0 enter the written easting/northing with additive polarity exactly +1 "
@@ -341,7 +360,10 @@ P["C19"] = dict(
     claimed=True,
     technique="static analysis: element-wise value-graph comparison of every CoordinateSet impl with the documented "
               "defaults; dominance of dimension guards; sign-carrier rule for the sexagesimal conversions",
-    decides=["T-CONTAINER-DEFAULTS: every get_coord impl (2D/32-bit, 3D, 4D, height/epoch adapters) returns the stored "
+    decides=["R-SIGN-CARRIER (odd form): in signum(x) * g(|x|) the magnitude g uses x through |x| only",
+             "R-DIM-GUARD (checked writes): a default method that writes element by element through set_nth keeps its own index below dim()",
+             "R-ADAPTER-FIXED: the fixed height / epoch of a 2D+ adapter is not changed by writing a tuple",
+             "T-CONTAINER-DEFAULTS: every get_coord impl (2D/32-bit, 3D, 4D, height/epoch adapters) returns the stored "
              "dimensions in order, height 0 and epoch NaN for missing ones, the adapter's fixed fields where supplied; "
              "every set_coord stores exactly the stored dimensions in order",
              "R-DIM-GUARD: in the CoordinateTuple defaults every *_nth_unchecked(k), k != 0, is dominated by k < dim()",
@@ -358,7 +380,9 @@ P["C20"] = dict(
     claimed=True,
     technique="static analysis of bin kp's MIR: per-iteration typestate of the output loop, dominance of emptiness and "
               "length guards, boolean abstract interpretation of the direction logic, error-propagation provenance",
-    decides=["R-ONE-LINE: the output loop visits all operands in order and prints exactly one line per tuple",
+    decides=["R-KP-DIMENSION: the output match dispatches on options.dimension.unwrap_or(input width) itself; the input width is measured after the comment was cut off",
+             "R-COMMENT-FIRST: kp handles the comment character by first-occurrence primitives only",
+             "R-ONE-LINE: the output loop visits all operands in order and prints exactly one line per tuple",
              "R-EMPTY-INDEX: operands[0] is read only where the batch is known to be non-empty",
              "R-KP-SLICE: the default-row tail slice starts within the row for any number of columns",
              "R-KP-DIRECTION: --inv / --roundtrip select Fwd/Inv as documented; the reference copy precedes the first apply",
@@ -405,7 +429,10 @@ P["C14"] = dict(
 P["C16"] = dict(
     claimed=True,
     technique="static analysis: declaration/use agreement of parameter keys between gamuts, constructors and readers",
-    decides=["R-KEY-DECLARED: every key read by an operator (flags included) is declared in its gamut, stored by its "
+    decides=["R-COMMENT-FIRST: the tokenizer cuts a line at its first `#` (no last-occurrence primitive is handed the comment character)",
+             "R-SIGN-CARRIER (suffix): every value parse_sexagesimal returns carries the sign of the hemisphere letter",
+             "R-BADPARAM-ORDER: every Error::BadParam built by ParsedParameters::new has the gamut key first and the offending value second",
+             "R-KEY-DECLARED: every key read by an operator (flags included) is declared in its gamut, stored by its "
              "constructor, or implicit; so a declared flag is what the operator consults ('flags are true when present')",
              "R-TYPED-EXTRACT: in ParsedParameters::new each OpParameter variant is parsed by the parser of the declared type (usize / i64 / parse_sexagesimal / none) and naturals and integers are stored unconverted",
              "R-SIGN-CARRIER: parse_sexagesimal takes the sign of the angle from the sign bit (signum) of the degrees field whose magnitude it uses, so -0:30 keeps its sign",
@@ -422,7 +449,9 @@ P["C16"] = dict(
 P["C17"] = dict(
     claimed=True,
     technique="static analysis: who-calls and dataflow rules on Plain::op and parse_proj (value graph, control dependence)",
-    decides=[
+    decides=["R-PROJ-TIDY-INDEPENDENT: the k= -> k_0= repair is reached whichever way the a / rf repair is decided",
+             "R-PROJ-PLUS: `+` is removed only where it starts a token (after white space or at the start of the text)",
+             
         "R-PROJ-FILTER: Plain::op instantiates exactly what parse_proj returns for the definition it was given",
         "R-PROJ-INVERSION: the reversal of the step order, the inversion of each step and the exchange of omit_fwd / "
         "omit_inv are all controlled by one and the same pipeline-level inversion flag (an ordinary pipeline keeps its "
@@ -451,7 +480,8 @@ P["C18"] = dict(
     technique="static analysis: ownership/typing argument made explicit: deep field-type walk (no interior "
               "mutability), who-may-write rule for the context tables, resolution-order dominance in Op::op, fresh "
               "handles, grid-cache access set, and compile-fail witnesses with compiling twins",
-    decides=["T-FREEZE: Op, OpDescriptor, ParsedParameters, BaseGrid, Ntv2Grid, Minimal, Plain contain no interior mutability",
+    decides=["R-RESOLUTION-ORDER (same-name): user operators, macros and built-ins are all looked up under the operator name of the definition being instantiated",
+             "T-FREEZE: Op, OpDescriptor, ParsedParameters, BaseGrid, Ntv2Grid, Minimal, Plain contain no interior mutability",
              "R-WHO-WRITES: the operator/resource/constructor tables are written only by insert in op / "
              "register_resource / register_op; no Context method hands out a mutable or owned Op",
              "W-BORROW: an InnerOp cannot mutate its Op; registration needs &mut while apply needs &; tables are private; "
